@@ -210,7 +210,18 @@ func (f *Frame) external(fn *ssa.Function, args []Val, c *ssa.CallCommon, pos to
 		vc.sc.decl("strconv.Itoa", "(declare-fun strconv.Itoa (Int) String)")
 		return Val{t: app("strconv.Itoa", a(0)), typ: strT}, false
 	case "slices.Contains":
-		return vc.freshVal("slices.Contains", boolT), false
+		r := vc.freshVal("slices.Contains", boolT)
+		if st, ok := args[0].typ.Underlying().(*types.Slice); ok && !isStruct(st.Elem()) {
+			// result <=> some element equals v (non-struct elements; absolute-index quantifier)
+			l, li := locElem(st.Elem())
+			arr, off, ln, _ := sliceParts(a(0))
+			row := vc.sc.define("contains.row", "(Array Int "+vc.te.sortOf(st.Elem())+")", app("select", vc.he.get(f.cur, l, li.sort(vc.te)), arr))
+			w := vc.sc.freshConst("contains.at", "Int")
+			v := a(1)
+			f.assume(implies(r.t, and(app("<=", off, w), app("<", w, app("+", off, ln)), eq(app("select", row, w), v))))
+			f.assume(implies(not(r.t), fmt.Sprintf("(forall ((k Int)) (! (=> (and (<= %s k) (< k (+ %s %s))) (not (= (select %s k) %s))) :pattern ((select %s k))))", off, off, ln, row, v, row)))
+		}
+		return r, false
 	}
 	if strings.HasPrefix(name, "fmt.Print") || strings.HasPrefix(name, "fmt.Fprint") {
 		// ghost output log: every print appends an opaque record (order matters)
